@@ -20,6 +20,15 @@ const (
 // order to avoid irrecoverable Go stack overflows.
 const maxGoFunctionCallDepth = 1000
 
+// The depth of nested RunContinuation calls in one thread is limited too.  Go
+// code re-enters the interpreter with RunContinuation each time it needs to run
+// a Lua value to completion (a metamethod, a message handler, a callback given
+// to a library function...).  When the value is a Lua function that triggers
+// the same operation again (e.g. an __index or __add metamethod using the
+// operator on its own arguments) no GoFunction is involved, so the limit above
+// is never reached, but every level still uses Go stack.
+const maxRunContinuationDepth = 2 * maxGoFunctionCallDepth
+
 // Data passed between Threads via their resume channel (Thread.resumeCh).
 //
 // Supported types for exception are ContextTerminationError (which means
@@ -51,6 +60,10 @@ type Thread struct {
 	// cannot be recovered from (note that this does not limit recursion for Lua
 	// functions).
 	goFunctionCallDepth int
+
+	// Depth of nested RunContinuation calls in the thread.  This should not
+	// exceed maxRunContinuationDepth.
+	runContinuationDepth int
 
 	DebugHooks
 
@@ -87,6 +100,11 @@ var errErrorInMessageHandler = StringValue("error in error handling")
 // the next continuation is nil or an error occurs, in which case it returns the
 // error.
 func (t *Thread) RunContinuation(c Cont) (err error) {
+	t.runContinuationDepth++
+	defer func() { t.runContinuationDepth-- }()
+	if t.runContinuationDepth > maxRunContinuationDepth {
+		return errors.New("stack overflow")
+	}
 	var next Cont
 	var errContCount = 0
 	_ = t.triggerCall(t, c)
